@@ -1,4 +1,5 @@
 import PyPhysim.Generated.C05Loop
+import PyPhysim.Generated.C05Grid
 import PyPhysim.Model.C05
 
 /-!
@@ -152,5 +153,40 @@ theorem savedIsReturned_run (merge : R → R → R) (repMax : Nat) (keep : Keep 
     · cases o with
       | ok r => exact ih _ _ (savedIsReturned_onOk merge repMax keep c r h)
       | skip => exact ih _ _ (savedIsReturned_onSkip merge repMax keep c h)
+
+end PyPhysim.C05
+
+/-! ### `Generated/C05Grid.lean`: which combination is which -/
+namespace PyPhysim.C05
+open PyPhysim.Generated.C05Grid
+
+variable {V : Type}
+
+theorem gen_unpackedValues (ps : List (Param V)) : unpackedValues ps = combos ps := by
+  unfold unpackedValues combos
+  split
+  · rename_i h
+    have : ps = [] := by simpa using h
+    subst this
+    simp [sortParams, product]
+  · rfl
+
+theorem gen_variation (ps : List (Param V)) (i : Nat) :
+    variation ps i = ((combos ps)[i]?).map (fun c => (((sortParams ps).map (·.1)).zip c, i)) := by
+  simp [variation, gen_unpackedValues, unpackedNames]
+
+theorem foldl_mul_eq (ls : List Nat) : ∀ a : Nat, ls.foldl (· * ·) a = a * prod ls := by
+  induction ls with
+  | nil => intro a; simp [prod]
+  | cons l ls ih => intro a; simp [prod, ih, Nat.mul_assoc]
+
+theorem prod_perm {l₁ l₂ : List Nat} (p : l₁.Perm l₂) : prod l₁ = prod l₂ := by
+  have h := p.foldl_eq' (f := (· * ·)) (fun x _ y _ z => Nat.mul_right_comm z x y) 1
+  simpa [foldl_mul_eq] using h
+
+theorem gen_numVariations (lens : List Nat) : numVariations lens = prod lens := by
+  cases lens with
+  | nil => simp [numVariations, prod]
+  | cons l ls => simp [numVariations, prod, foldl_mul_eq]
 
 end PyPhysim.C05
